@@ -678,6 +678,7 @@ type smtWriter struct {
 	sb       strings.Builder
 	done     map[int]string // term id -> name or inline text
 	apps     []*Term        // ground uninterpreted applications emitted
+	sels     []*Term        // scalar reads of pre-state arrays at input-like indices
 	declared map[string]bool
 	funs     map[string]bool
 }
@@ -773,6 +774,12 @@ func (w *smtWriter) emit(t *Term) string {
 		}
 		if !hasBound && t.Op == "app" {
 			w.apps = append(w.apps, t)
+		}
+		if !hasBound && t.Op == "select" && t.S.K != KArr && len(w.sels) < 80 {
+			a, i := t.Args[0], t.Args[1]
+			if a.Op == "const" && strings.HasSuffix(a.Name, "@pre") && (i.Op == "const" || i.Op == "lit" || i.Op == "select") {
+				w.sels = append(w.sels, t)
+			}
 		}
 		if !hasBound {
 			name := fmt.Sprintf("n%d", t.id)
